@@ -246,9 +246,15 @@ def oracle_epeq(case, impl):
     return None
 
 
+def _oracle_realep(case, impl):
+    from props.c11 import oracle_realep
+    return oracle_realep(case, impl)
+
+
 SPEC = dict(
     lean_module="NV.Props.C08",
-    areas=[dict(name="epeq", n_quick=20000, n_thorough=400000, shards_thorough=4, oracle=oracle_epeq),
+    areas=[dict(name="realep", n_quick=25, n_thorough=400, shards_thorough=2, oracle=_oracle_realep, timeout=900),
+           dict(name="epeq", n_quick=20000, n_thorough=400000, shards_thorough=4, oracle=oracle_epeq),
            dict(name="mgr", n_quick=4000, n_thorough=160000, shards_thorough=8,
                 oracle=lambda c, i: oracle_mgr(c, i, "c08"), nontrivial=nontrivial_mgr, timeout=1200),
            # overlapping elections (one held inside OnChange while another completes): the later election must win
